@@ -32,7 +32,6 @@ Proof.
   - destruct (ckey_eqb k k'); auto.
 Qed.
 
-Definition nn (o : option jv) : bool := match o with Some JNull => false | _ => true end.
 Lemma pyval_jsonval o : nn o = true -> pyval (jsonval o) = o.
 Proof. destruct o as [[]|]; cbn; congruence. Qed.
 Lemma pyval_nn v : nn (pyval v) = true.
@@ -170,12 +169,6 @@ Section AccProofs.
   Proof. destruct a, b; cbn; auto. apply Z.eqb_sym. Qed.
   Lemma is_id_truthy v : is_id v -> truthy v = true.
   Proof. intros (z & -> & Hz). cbn. apply negb_true_iff. now apply Z.eqb_neq. Qed.
-
-  Fixpoint distinct_iids (ss : list svc) : bool :=
-    match ss with
-    | [] => true
-    | s :: r => negb (has_iid (s_iid s) r) && distinct_iids r
-    end.
 
   (* well-formed service w.r.t. the set of services [all] of its accessory *)
   Definition wf_svc (all : list svc) (s : svc) : Prop :=
@@ -419,4 +412,111 @@ Proof.
   assert (Hn : negb (nil_b s) = true) by (destruct s; [congruence|reflexivity]).
   rewrite Ht, Hn. cbn [str_is]. replace (bytes_eqb a_IP a_IP) with true by reflexivity.
   destruct (plook k_ip d); [|congruence]. destruct (plook k_port d); [|congruence]. reflexivity.
+Qed.
+
+(* ------------------------------------------------------------ decidable well-formedness
+   (extracted: the driver reports for every generated entity map whether the objects the
+   loader builds from it satisfy the hypotheses of the round-trip theorems) *)
+Section WfDec.
+  Variable norm : bytes -> option bytes.
+  Variable tbl : bytes -> ctab.
+  Notation norm_fixb := (norm_fixb norm).
+  Notation wf_chrb := (wf_chrb norm tbl).
+  Notation wf_svcb := (wf_svcb norm tbl).
+  Notation wf_accb := (wf_accb norm tbl).
+
+  Lemma norm_fixb_sound t : norm_fixb t = true -> norm t = Some t.
+  Proof. unfold norm_fixb. destruct (norm t) as [t'|]; [|discriminate]. intros H. apply bytes_eqb_eq in H. now subst. Qed.
+  Lemma tab_okb_sound f t : tab_okb f t = true -> f = None -> t = None.
+  Proof. intros H ->. cbn in H. destruct t; [discriminate|reflexivity]. Qed.
+
+  Lemma value_okb_sound c : value_okb c = true -> value_ok c.
+  Proof.
+    unfold value_okb, value_ok. destruct (c_value c) as [x|].
+    - intros H. repeat (apply andb_true_iff in H; destruct H as [H ?]).
+      repeat split; auto.
+      + intros Hb. rewrite Hb in *. destruct x; try discriminate. eauto.
+      + destruct (initial_value _ _ _ _ _) as [v0| | |]; try discriminate. eauto.
+    - destruct (initial_value _ _ _ _ _) as [[v|]| | |]; try discriminate. reflexivity.
+  Qed.
+
+  Lemma wf_chrb_sound c : wf_chrb c = true -> wf_chr norm tbl c.
+  Proof.
+    unfold wf_chrb, wf_chr. intros H. repeat (apply andb_true_iff in H; destruct H as [H ?]).
+    repeat split; auto using norm_fixb_sound, value_okb_sound; eapply tab_okb_sound; eauto.
+  Qed.
+
+  Lemma is_idb_sound v : is_idb v = true -> is_id v.
+  Proof. destruct v; try discriminate. cbn. intros H. apply negb_true_iff, Z.eqb_neq in H. exists z. auto. Qed.
+
+  Lemma forallb_Forall {A} (p : A -> bool) (P : A -> Prop) l :
+    (forall x, p x = true -> P x) -> forallb p l = true -> Forall P l.
+  Proof.
+    intros H Hl. apply Forall_forall. intros x Hx. apply H. rewrite forallb_forall in Hl. now apply Hl.
+  Qed.
+
+  Lemma wf_svcb_sound all s : wf_svcb all s = true -> wf_svc norm tbl all s.
+  Proof.
+    unfold wf_svcb, wf_svc. intros H. repeat (apply andb_true_iff in H; destruct H as [H ?]).
+    repeat split; auto using is_idb_sound, norm_fixb_sound.
+    eapply forallb_Forall; [apply wf_chrb_sound|assumption].
+  Qed.
+
+  Lemma wf_accb_sound a : wf_accb a = true -> wf_acc norm tbl a.
+  Proof.
+    unfold wf_accb, wf_acc. intros H. apply andb_true_iff in H. destruct H as [H1 H2]. split; [|exact H2].
+    eapply forallb_Forall; [apply wf_svcb_sound|assumption].
+  Qed.
+
+  Theorem accs_roundtrip_checked l :
+    forallb wf_accb l = true ->
+    rmap (map forget_acc) (accs_from norm tbl (accs_to l)) = Ok (map forget_acc l).
+  Proof. intros H. apply accs_roundtrip. eapply forallb_Forall; [apply wf_accb_sound|assumption]. Qed.
+End WfDec.
+
+(* ------------------------------------------------------------ a concrete accessory database *)
+Definition ex_norm (t : bytes) : option bytes := Some t.
+Definition ex_tbl (t : bytes) : ctab :=
+  if bytes_eqb t [49; 48]%N                                    (* a type with table defaults *)
+  then mkctab (Some (JStr a_int)) (Some (JStr [66]%N)) None (Some (JInt 0)) (Some (JInt 100)) (Some (JInt 1))
+  else no_tab.
+Definition ex_db : list acc :=
+  [mkacc (JInt 1)
+     [mksvc (JInt 1) [51; 69]%N
+        [mkchr [50; 53]%N (JInt 2) [a_pr; [112; 119]%N] (Some (JStr a_bool)) (Some (JBool true)) None None
+               None None None None (Some (JInt 17)) (Some (JBool false)) None;
+         mkchr [49; 48]%N (JInt 3) [[112; 119]%N] (Some (JStr a_int)) None (Some (JStr [66]%N)) None
+               (Some (JInt 0)) (Some (JInt 100)) (Some (JInt 1)) None None None None;
+         mkchr [50; 51]%N (JInt 4) [a_pr] (Some (JStr a_string)) (Some (JStr [226; 152; 131]%N)) (Some (JStr [])) None
+               None None None None None None (Some (JBool true));
+         mkchr [49; 49]%N (JInt 5) [a_pr] (Some (JStr a_float)) (Some (JFlt 255 1)) None (Some (JStr [99]%N))
+               (Some (JFlt 5 1)) (Some (JInt 100)) (Some (JFlt 1 1)) None None None None]
+        [JInt 8];
+      mksvc (JInt 8) [52; 51]%N [] []]].
+
+Lemma ex_db_wf : forallb (wf_accb ex_norm ex_tbl) ex_db = true.
+Proof. vm_compute. reflexivity. Qed.
+
+Lemma ex_db_roundtrip :
+  rmap (map forget_acc) (accs_from ex_norm ex_tbl (accs_to ex_db)) = Ok (map forget_acc ex_db) /\
+  ex_db <> [] /\ accs_from ex_norm ex_tbl (accs_to ex_db) <> Ok ex_db.
+Proof.
+  split; [vm_compute; reflexivity|]. split; [discriminate|].
+  (* the empty description of characteristic 4 is not written and comes back as None *)
+  vm_compute. intros H. discriminate H.
+Qed.
+
+Definition ex_pairings : list (bytes * pdata) :=
+  [([195; 164]%N, [(k_id, JStr [65; 65]%N); (k_conn, JStr a_BLE); ([120]%N, JInt 7)]);
+   ([105]%N, [(k_ip, JStr [49]%N); (k_port, JInt 51826); (k_id, JStr [66]%N); (k_conn, JStr a_IP)]);
+   ([99]%N, [(k_conn, JStr a_CoAP); (k_ip, JStr [49]%N); (k_port, JInt 5683); (k_id, JStr [67]%N)])].
+Lemma ex_pairings_wf : Forall (fun ad => wf_pdata (snd ad)) ex_pairings.
+Proof.
+  unfold ex_pairings. apply Forall_cons; [|apply Forall_cons; [|apply Forall_cons; [|apply Forall_nil]]]; cbn [snd]; split.
+  - eexists. split; [vm_compute; reflexivity|discriminate].
+  - right. right. reflexivity.
+  - eexists. split; [vm_compute; reflexivity|discriminate].
+  - left. split; [reflexivity|split; discriminate].
+  - eexists. split; [vm_compute; reflexivity|discriminate].
+  - right. left. split; [reflexivity|split; discriminate].
 Qed.
